@@ -297,8 +297,22 @@ def is_refusal(exc):
     return cls in REFUSAL or (cls == "ValueError" and "Gate not found" in str(exc))       # stim has no gate of that name
 
 
-def run(tier, seed):
-    cases = gen_cases(tier, seed)
+def replay(path, tier="quick", seed=0):
+    """re-run the case of a replay file on the device it names"""
+    r = json.loads(open(path).read())["replay"]
+    c = r["case"]
+
+    def tup(m):
+        if m[0] == "ham":
+            return ("ham", [(float(co), list(pw)) for co, pw in m[1]])
+        return tuple(m)
+    c["meas"] = [tup(m) for m in c["meas"]]
+    c["batch"] = tuple(c["batch"]) if c["batch"] else None
+    return run(tier, seed, _cases=[c], _only=[r["device"]])
+
+
+def run(tier, seed, _cases=None, _only=None):
+    cases = _cases if _cases is not None else gen_cases(tier, seed)
     # ---------------------------------------------------------------- exact oracle (TLC), running beside the device executions
     tcases, owner = [], []
     for ci, c in enumerate(cases):
@@ -325,9 +339,9 @@ def run(tier, seed):
     for ci, c in enumerate(cases):
         ops = build_ops(c)
         for dev in (CLIFF if c["pool"] == "clifford" else GENERAL):
-            if dev in not_covered:
+            if dev in not_covered or (_only is not None and dev not in _only):
                 continue
-            if c["pool"] == "clifford" and not dev.startswith("default.clifford") and ci % 3:
+            if _cases is None and c["pool"] == "clifford" and not dev.startswith("default.clifford") and ci % 3:
                 continue                     # the other devices see a third of the Clifford pool
             meas = meas_for(dev, c)
             if not meas:
@@ -496,7 +510,7 @@ def run(tier, seed):
     # vacuity: every constructed device must have produced compared values
     for d, st in per_dev.items():
         need = {"default.clifford/sv": 3}.get(d, 10) * (1 if tier == "quick" else 10)
-        if d not in not_covered and st["compared"] < need and not any(v.key.startswith(d) for v in viol):
+        if _cases is None and d not in not_covered and st["compared"] < need and not any(v.key.startswith(d) for v in viol):
             raise lib.MachineryError(f"vacuous: {d} produced only {st['compared']} compared values ({st})")
 
     cov = {"states": stats["distinct"] + shape_stats["distinct"], "transitions": stats["generated"] + shape_stats["generated"],
